@@ -93,6 +93,7 @@ fn deporder_embedded(case: &Value) -> Value {
     //   gds:    0 struct references, 1 array references, 2 both kinds mixed, each target also referenced twice
     //   raw / tetris: 0 layouts everywhere, 1 cells without dependencies have only an abstract view (no layout),
     //                 2 every dependency instantiated twice, leaves carry both views
+    //   tetris only:  3 cells without dependencies are wrappers of a raw layout (no tetris layout, no abstract)
     let form = case.get("form").and_then(|f| f.as_i64()).unwrap_or(0);
     match which {
         "raw" => {
@@ -132,12 +133,18 @@ fn deporder_embedded(case: &Value) -> Value {
                 let mut layout = raw::Layout::default();
                 layout.name = name(i);
                 for (k, d) in deps[i - 1].iter().enumerate() {
-                    layout.insts.push(raw::Instance {
-                        inst_name: format!("i{}", k), cell: cells[*d - 1].clone(),
-                        loc: raw::Point::new(0, 0), reflect_vert: false, angle: None,
-                    });
+                    for rep in 0..(if form == 2 { 2 } else { 1 }) {
+                        layout.insts.push(raw::Instance {
+                            inst_name: format!("i{}_{}", k, rep), cell: cells[*d - 1].clone(),
+                            loc: raw::Point::new(0, 0), reflect_vert: false, angle: None,
+                        });
+                    }
                 }
-                cells[i - 1].write().unwrap().layout = Some(layout);
+                let leaf = deps[i - 1].is_empty();
+                let outline = raw::Polygon { points: vec![raw::Point::new(0, 0), raw::Point::new(5, 0), raw::Point::new(5, 5), raw::Point::new(0, 5)] };
+                let mut c = cells[i - 1].write().unwrap();
+                if leaf && form >= 1 { c.abs = Some(raw::Abstract::new(name(i), outline)); }
+                if !(leaf && form == 1) { c.layout = Some(layout); }
             }
             let mut lib = raw::Library::new("lib", raw::Units::Nano);
             for it in &items { lib.cells.push(cells[*it - 1].clone()); }
@@ -192,8 +199,15 @@ fn deporder_embedded(case: &Value) -> Value {
                 }
                 let leaf = deps[i - 1].is_empty();
                 let mut c = cells[i - 1].write().unwrap();
-                if leaf && form >= 1 && which == "tetris" { c.abs = Some(t::abs::Abstract::new(name(i), 0, t::outline::Outline::rect(10, 10).unwrap())); }
-                if !(leaf && form == 1 && which == "tetris") { c.layout = Some(layout); }
+                if leaf && (form == 1 || form == 2) { c.abs = Some(t::abs::Abstract::new(name(i), 0, t::outline::Outline::rect(10, 10).unwrap())); }
+                if leaf && form == 3 {
+                    // a leaf defined by a raw layout only (RawLayoutPtr): still a node of the graph
+                    let rawcell = Ptr::new(layout21raw::Cell::new(name(i)));
+                    let mut rl = layout21raw::Library::new("rawlib", layout21raw::Units::Nano);
+                    rl.cells.push(rawcell.clone());
+                    c.raw = Some(t::cell::RawLayoutPtr { outline: t::outline::Outline::rect(10, 10).unwrap(), metals: 0, lib: Ptr::new(rl), cell: rawcell });
+                }
+                if !(leaf && (form == 1 || form == 3)) { c.layout = Some(layout); }
             }
             let mut lib = t::library::Library::new("lib");
             for it in &items { lib.cells.push(cells[*it - 1].clone()); }
